@@ -71,7 +71,8 @@ RightOutcome == stage = "Done" => outcome = Expected(tag)
 
 \* ---------------- part 2: value shapes
 Leaves == { <<"none">>, <<"true">>, <<"false">>, <<"int">>, <<"float">>, <<"str">>, <<"uuid">>, <<"date">>, <<"datetime">> }
-ClassesJ == {"A", "B", "C", "A2", "It"}      \* A2 = a class named A in another module; It = a subclass of A that is iterable (defines __iter__)
+ClassesJ == {"A", "B", "C", "A2", "It", "D1", "MD"}      \* A2 = a class named A in another module; It = a subclass of A that is iterable (defines __iter__);
+                                                    \* D1 = below a class that overrides __init_subclass__ without calling super(); MD = made by dataclasses.make_dataclass
 Mk(t) == IF t[1] = "dup" THEN <<"dup", t[2]>>           \* a list that holds the SAME sub-value object twice (aliasing, no cycle)
          ELSE IF t[1] = "list0" THEN <<"list", <<>> >>
          ELSE IF t[1] = "list1" THEN <<"list", <<t[2]>> >>
